@@ -129,6 +129,11 @@ def run_history(kind, ctor, specs):
     dim = ctor.get('dimension')
     out = []
     for spec in specs:
+        if spec.get('interloper_ctor') is not None:
+            # a fit by ANOTHER trainer object of the same class (other constructor options) in the same process: whatever it
+            # leaves behind at module or class level must not reach the trainers under test
+            P.trainer_fit(cls(**spec['interloper_ctor']), kind, spec)
+            continue
         d = int(spec['y'].shape[-1])
         expected = 'reject' if (dim is not None and d != dim) else 'ok'
         status, res = P.trainer_fit(trainer, kind, spec)
@@ -557,6 +562,14 @@ def _search_trainers(ctx, n):
             other_dim = rng.random() < 0.25
             d = D if not other_dim else P.pick(rng, [x for x in range(2, dmax + 2) if x != D])
             spec = P.g_trainer_fit(rng, kind, d, base=base)
+            if kind in ('CWMMTrainer', 'ComplexWatsonTrainer') and rng.random() < 0.35:
+                # same spline_markers, another max_concentration (larger or smaller than the trainer under test)
+                mc = ctor.get('max_concentration', 500)
+                spec = dict(spec, interloper_ctor={'max_concentration': P.pick(rng, [v for v in (20, 100, 500, 2000) if v != mc]),
+                                                   'spline_markers': ctor.get('spline_markers', 1000)})
+                ctx.count('trainer-history:interloper-with-other-max_concentration')
+                history.append(spec)
+                continue
             base = base or (spec if d == D else None)
             history.append(spec)
         final_other = rng.random() < 0.2
@@ -566,7 +579,8 @@ def _search_trainers(ctx, n):
         ctx.count(f'trainer-history:{kind}:len{L}')
         if i == 0:
             ctx.sample({'oracle': 'reused_trainer_equals_fresh', 'kind': kind, 'ctor': ctor,
-                        'history_dims': [int(h['y'].shape[-1]) for h in history], 'final_dim': dF, 'held': ok})
+                        'history_dims': [int(h['y'].shape[-1]) for h in history if 'interloper_ctor' not in h],
+                        'final_dim': dF, 'held': ok})
 
 
 def _search_splits(ctx):
